@@ -154,6 +154,20 @@ def compare(case, m, els, start, dt, steps, grid):
                 return "%s(%r) raised %s: %s" % (name, t, type(e).__name__, e)
             if not math.isclose(float(g), float(w), rel_tol=1e-7, abs_tol=1e-7):
                 return "%s(%r) = %r, explicit Euler gives %r" % (name, t, g, w)
+    # a value is reported for EVERY grid time from start through stop (the run the element itself offers)
+    for name in list(want)[-2:]:
+        try:
+            df = els[name].plot(return_df=True)
+        except Exception as e:
+            return "%s.plot(return_df=True) raised %s: %s" % (name, type(e).__name__, e)
+        idx = [float(x) for x in df.index]
+        if idx != grid:
+            missing = [t for t in grid if t not in idx]
+            return "%s: the run reports the times %r, the grid is %r (no value reported at %r)" % (name, idx[:12], grid[:12], missing[:3])
+        col = df[df.columns[0]]
+        for k, t in enumerate(grid):
+            if not math.isclose(float(col[t]), float(want[name][k]), rel_tol=1e-7, abs_tol=1e-7):
+                return "%s: the run reports %r at %r, explicit Euler gives %r" % (name, col[t], t, want[name][k])
     return None
 '''
 exec(PRELUDE)
@@ -216,7 +230,7 @@ def _gen(rnd):
         outs = [f for f in flows if f not in ins and rnd.random() < 0.5]
         inline = gen_expr(rnd, names, rnd.randint(1, 2)) if rnd.random() < 0.5 else None
         elements.append(('stock', s, (rnd.choice([0.0, 10.0, -3.0]), ins, outs, inline)))
-    return dict(start=rnd.choice([0.0, 1.0]), dt=dt, steps=rnd.randint(3, 8), elements=elements,
+    return dict(start=rnd.choice([0.0, 1.0, 0.1]), dt=dt, steps=rnd.randint(2, 9), elements=elements,
                 dt2=rnd.choice([None, dt / 2, 0.1, 0.05]))
 
 
